@@ -573,6 +573,9 @@ pub fn lane_timing(tier: Tier, seed: u64) -> Vec<Scenario> {
         HugeCli,
         /// `--timeout-seconds 0` (unlimited) over a short front-matter limit: the command line wins
         ZeroCliOverFront,
+        /// `--timeout-seconds 4` over `total_timeout: 0s` (unlimited) in the front-matter: the
+        /// command line wins here too - "0" is not the smallest limit
+        ShortCliOverZeroFront,
     }
     #[derive(Clone, Copy, Debug, PartialEq)]
     enum TestLim {
@@ -594,7 +597,7 @@ pub fn lane_timing(tier: Tier, seed: u64) -> Vec<Scenario> {
         DurOver,
     }
     for script in [false, true] {
-        for dl in [DocLim::Absent, DocLim::Zero, DocLim::ShortFront, DocLim::ShortCli, DocLim::HugeCli, DocLim::ZeroCliOverFront] {
+        for dl in [DocLim::Absent, DocLim::Zero, DocLim::ShortFront, DocLim::ShortCli, DocLim::HugeCli, DocLim::ZeroCliOverFront, DocLim::ShortCliOverZeroFront] {
             for tl in [TestLim::Absent, TestLim::Shorter, TestLim::Longer, TestLim::ShorterInDefaults, TestLim::Huge] {
                 if script && tl != TestLim::Absent {
                     continue;
@@ -613,7 +616,7 @@ pub fn lane_timing(tier: Tier, seed: u64) -> Vec<Scenario> {
                                 DocLim::Absent => Some(900 * SEC),
                                 DocLim::Zero | DocLim::ZeroCliOverFront => None,
                                 DocLim::ShortFront => Some(if script && tier == Tier::Cli { 4 * SEC } else { 4500 * MS }),
-                                DocLim::ShortCli => Some(4 * SEC),
+                                DocLim::ShortCli | DocLim::ShortCliOverZeroFront => Some(4 * SEC),
                                 DocLim::HugeCli => Some(7200 * SEC),
                             };
                             // the tests before the slow one take 1 s each
@@ -746,6 +749,12 @@ pub fn lane_timing(tier: Tier, seed: u64) -> Vec<Scenario> {
                                     cli.timeout_seconds = Some(4);
                                     if format == Format::Md {
                                         d.total_timeout_ns = Some(60 * SEC); // the command line wins
+                                    }
+                                }
+                                DocLim::ShortCliOverZeroFront => {
+                                    cli.timeout_seconds = Some(4);
+                                    if format == Format::Md {
+                                        d.total_timeout_ns = Some(0);
                                     }
                                 }
                             }
